@@ -8,7 +8,8 @@ CASES = {'quick': 2400, 'thorough': 60000}
 TARGETS = sorted(c.__name__ for c in models.TREE_MODELS.values())
 GATES = {
     'quick': {'evaluations': 6000, 'accepted_File': 1200, 'targets_accepted_ge5': 33, 'layout_comment_before_dedent': 30,
-              'layout_ws_only_line': 100, 'layout_no_final_newline': 200, 'layout_crlf': 300},
+              'layout_ws_only_line': 100, 'layout_no_final_newline': 200, 'layout_crlf': 300,
+              'inline_targets_respaced_multiline': 800},
     'thorough': {'evaluations': 150000, 'accepted_File': 30000, 'targets_accepted_ge5': 33},
 }
 RULE = ('case = one generated document (normal or hostile profile; thorough adds 50..400-directive files) parsed as File with '
@@ -142,6 +143,19 @@ def run_case(col, r, idx):
         seen.add((t, stext))
         for acl in (True, False):
             _check(col, stext, t, acl, 'sub-model of a generated file')
+        if t.INLINE and r.random() < 0.5:
+            # inline targets may continue on following (indented) lines: re-space the sub-model's own text with line breaks, blank
+            # lines and indentation between its tokens and let parse() decide
+            pieces = []
+            for tk in sub.tokens:
+                if isinstance(tk, models.Whitespace):
+                    pieces.append(r.choice([' ', '\n', '\n   ', '\t', '\r\n  ', '  \n', '\n\n  ', '\n\t']))
+                else:
+                    pieces.append(tk.raw_text)
+            vtext = ''.join(pieces)
+            if vtext != stext:
+                col.count('inline_targets_respaced_multiline')
+                _check(col, vtext, t, r.random() < 0.5, 'sub-model text re-spaced over several lines')
     if idx % 601 == 0:
         col.sample({'text': text, 'profile': 'hostile' if prof.hostile else 'default', 'sub_models_reparsed': len(seen)})
 
